@@ -60,20 +60,26 @@ def keyOfHex (s : String) : Option Bytes :=
   | some b => if b.length = 32 then some b else none
   | none => none
 
+/-- one member of `paired_clients` / `client_uuid_to_bytes`: `(uuid.UUID(client), bytes.fromhex(key))` -/
+def entryOfStr (e : String × String) : Option (Uuid × Bytes) :=
+  match uuidOfStr e.1, ofHex e.2 with
+  | some u, some k => some (u, k)
+  | _, _ => none
+
+/-- one member of `client_properties` -/
+def propOfStr (e : String × Nat) : Option (Uuid × Nat) := (uuidOfStr e.1).map fun u => (u, e.2)
+
+/-- legacy branch: `{uuid.UUID(client): {"permissions": 1} for client in loaded["paired_clients"]}` -/
+def legacyProp (e : String × String) : Option (Uuid × Nat) := (uuidOfStr e.1).map fun u => (u, 1)
+
 /-- `AccessoryEncoder.load_into` on a fresh state; `none` = an exception (KeyError / ValueError). -/
 def load (d : Doc) : Option AccState :=
   let props? : Option (List (Uuid × Nat)) :=
     match d.clientProperties with
-    | some cp => optMap (fun e => (uuidOfStr e.1).map fun u => (u, e.2)) cp
-    | none => optMap (fun e => (uuidOfStr e.1).map fun u => (u, 1)) d.pairedClients
-  let paired? : Option (List (Uuid × Bytes)) :=
-    optMap (fun e => match uuidOfStr e.1, ofHex e.2 with
-      | some u, some k => some (u, k)
-      | _, _ => none) d.pairedClients
-  let u2b? : Option (List (Uuid × Bytes)) :=
-    optMap (fun e => match uuidOfStr e.1, ofHex e.2 with
-      | some u, some k => some (u, k)
-      | _, _ => none) (d.clientUuidToBytes.getD [])
+    | some cp => optMap propOfStr cp
+    | none => optMap legacyProp d.pairedClients
+  let paired? : Option (List (Uuid × Bytes)) := optMap entryOfStr d.pairedClients
+  let u2b? : Option (List (Uuid × Bytes)) := optMap entryOfStr (d.clientUuidToBytes.getD [])
   match props?, paired?, keyOfHex d.privateKey, keyOfHex d.publicKey, u2b? with
   | some props, some paired, some priv, some pub, some u2b =>
     some { mac := d.mac, configVersion := d.configVersion, accessoriesHash := d.accessoriesHash,
